@@ -319,8 +319,8 @@ def jobs(tier):
                                     'hashes and claim ids: 20 bytes', heights='[0, 2^32)'), must_reach=('ok',)))
         if tier == 'thorough':
             out.append(dict(name=f'template-all-lengths-{name}', family='template', fn='template_roundtrip',
-                            args=(name, True, 2 ** 32 - 1), loop_bound=60, max_depth=50, cost=2000,
-                            bounds=dict(template=name, value_lengths='every value: every length in [0, 2^32)',
+                            args=(name, True, 2 ** 24), loop_bound=60, max_depth=50, cost=2000,
+                            bounds=dict(template=name, value_lengths='every value: every length in [0, 2^24]',
                                         heights='[0, 2^32)'), must_reach=('ok',)))
     nmax = 4 if tier == 'quick' else 6
     for n in range(0, nmax + 1):
